@@ -1,9 +1,11 @@
 package lib
 
 import (
+	"fmt"
 	"net"
 	"regexp"
 	"strconv"
+	"strings"
 
 	"github.com/refraction-networking/conjure/pkg/station/geoip"
 	"github.com/refraction-networking/conjure/pkg/station/liveness"
@@ -51,39 +53,44 @@ type RegConfig struct {
 }
 
 // ParseBlocklists converts string arrays of blocklisted domains, addresses and
-// subnets and parses them into a usable format
-func (c *RegConfig) ParseBlocklists() {
-	c.covertBlocklistSubnets = []*net.IPNet{}
-	for _, subnet := range c.CovertBlocklistSubnets {
-		_, ipNet, err := net.ParseCIDR(subnet)
-		if err == nil {
-			c.covertBlocklistSubnets = append(c.covertBlocklistSubnets, ipNet)
+// subnets and parses them into a usable format. Surrounding white space in an
+// entry is ignored. An entry that cannot be parsed is reported through the
+// returned error (it used to be dropped silently, leaving the station running
+// without that part of its policy); all parsable entries are still applied.
+func (c *RegConfig) ParseBlocklists() error {
+	var firstErr error
+	parseSubnets := func(list string, entries []string) []*net.IPNet {
+		out := []*net.IPNet{}
+		for _, subnet := range entries {
+			_, ipNet, err := net.ParseCIDR(strings.TrimSpace(subnet))
+			if err != nil {
+				if firstErr == nil {
+					firstErr = fmt.Errorf("%s: invalid entry %q: %w", list, subnet, err)
+				}
+				continue
+			}
+			out = append(out, ipNet)
 		}
+		return out
 	}
+
+	c.covertBlocklistSubnets = parseSubnets("covert_blocklist_subnets", c.CovertBlocklistSubnets)
 
 	c.covertBlocklistDomains = []*regexp.Regexp{}
 	for _, r := range c.CovertBlocklistDomains {
-		blockedDom := regexp.MustCompile(r)
-		if blockedDom != nil {
-			c.covertBlocklistDomains = append(c.covertBlocklistDomains, blockedDom)
+		blockedDom, err := regexp.Compile(r)
+		if err != nil {
+			if firstErr == nil {
+				firstErr = fmt.Errorf("covert_blocklist_domains: invalid pattern %q: %w", r, err)
+			}
+			continue
 		}
+		c.covertBlocklistDomains = append(c.covertBlocklistDomains, blockedDom)
 	}
 
-	c.phantomBlocklist = []*net.IPNet{}
-	for _, subnet := range c.PhantomBlocklist {
-		_, ipNet, err := net.ParseCIDR(subnet)
-		if err == nil {
-			c.phantomBlocklist = append(c.phantomBlocklist, ipNet)
-		}
-	}
+	c.phantomBlocklist = parseSubnets("phantom_blocklist", c.PhantomBlocklist)
 
-	c.covertAllowlistSubnets = []*net.IPNet{}
-	for _, subnet := range c.CovertAllowlistSubnets {
-		_, ipNet, err := net.ParseCIDR(subnet)
-		if err == nil {
-			c.covertAllowlistSubnets = append(c.covertAllowlistSubnets, ipNet)
-		}
-	}
+	c.covertAllowlistSubnets = parseSubnets("covert_allowlist_subnets", c.CovertAllowlistSubnets)
 	if len(c.covertAllowlistSubnets) > 0 {
 		c.enableCovertAllowlist = true
 	}
@@ -92,7 +99,7 @@ func (c *RegConfig) ParseBlocklists() {
 		// Add all public local addresses to the blocklist.
 		ifaces, err := net.Interfaces()
 		if err != nil {
-			return
+			return firstErr
 		}
 
 		for _, i := range ifaces {
@@ -115,6 +122,8 @@ func (c *RegConfig) ParseBlocklists() {
 			}
 		}
 	}
+
+	return firstErr
 }
 
 // ParseOrResolveBlocklisted attempts to return an IP:port string whenever
